@@ -7,23 +7,23 @@ V = os.path.dirname(os.path.dirname(os.path.abspath(__file__)))
 pats = sys.argv[1:]
 items = []
 for p in sorted(glob.glob(os.path.join(V, "selftest", "mutants", "*.diff"))):
-    items.append((os.path.basename(p)[:-5], os.path.basename(p).split("-")[0], p))
+    items.append((os.path.basename(p)[:-5], os.path.basename(p).split("-")[0], p, "HEAD"))
 for meta in sorted(glob.glob(os.path.join(V, "seeded", "*", "meta.json"))):
     m = json.load(open(meta))
     d = os.path.dirname(meta)
-    items.append(("seeded/" + os.path.basename(d), m["property"], os.path.join(d, "patch.diff")))
+    items.append(("seeded/" + os.path.basename(d), m["property"], os.path.join(d, "patch.diff"), m.get("base_rev", "HEAD")))
 if pats:
     items = [i for i in items if any(s in i[0] for s in pats)]
 results, missed = {}, []
-for name, prop, patch in items:
+for name, prop, patch, rev in items:
     t0 = time.time()
     props = prop if isinstance(prop, list) else [prop]
     caught_by, sigs = [], []
     for pr in props:
-        r = subprocess.run([os.path.join(V, "tools", "mutant.py"), "--patch", patch, "--", os.path.join(V, "check"), pr, "--tier", "quick"],
+        r = subprocess.run([os.path.join(V, "tools", "mutant.py"), "--rev", rev, "--patch", patch, "--", os.path.join(V, "check"), pr, "--tier", "quick"],
                            stdout=subprocess.PIPE, stderr=subprocess.STDOUT, text=True, timeout=1800,
                            env=dict(os.environ, RSIM_NO_EVIDENCE="1", RSIM_REPLAY_DIR="/var/tmp/rv-mutant-replays"))
-        s = re.findall(r"^violation: (\S+)", r.stdout, re.M)
+        s = re.findall(r"^violation: (.+)$", r.stdout, re.M)
         if "VIOLATION property=" in r.stdout:
             caught_by.append(pr)
             sigs += s
